@@ -570,3 +570,44 @@ if __name__ == "__main__":
     for s in make_sessions(int(sys.argv[1]) if len(sys.argv) > 1 else 1, 3):
         print("\n---\n".join(s))
         print("=========")
+
+
+def closure_loop_session(rng):
+    """closure instances whose loops read captured variables in the iterator
+    expression, several of them called within one statement (one Run: shared
+    context free list), incl. loops abandoned by return"""
+    s = []
+    forms = [
+        "mk%(n)s = (k) -> () -> {\ns = 0\nfor i <- fromto(0, k) s = s + i\ns\n}",
+        "mk%(n)s = (k) -> () -> {\ns = 0\nfor e <- elems([k, k + 1, 7]) s = s + e\ns\n}",
+        "mk%(n)s = (k) -> (m) -> {\ns = 0\nfor i, j <- fromto(0, k), fromto(m, m + 9) s = s + i * j\ns\n}",
+        "mk%(n)s = (k) -> () -> {\nfor i <- fromto(0, 9) if i == k return i * 100\n0 - 1\n}",
+        "mk%(n)s = (k) -> () -> {\ns = []\nfor i <- fromto(k, k + 2) {\nfor j <- fromto(0, k) s = s + [i + j]\n}\ns\n}",
+        "mk%(n)s = (k) -> {\nbase = k * 10\n() -> {\nt = 0\nfor i <- fromto(base, base + k) t = t + i\nt\n}\n}",
+    ]
+    names = "abcd"
+    makers = []
+    for n in range(rng.randint(1, 3)):
+        f = rng.choice(forms)
+        s.append(f % {"n": names[n]})
+        makers.append(("mk" + names[n], "(m)" in f))
+    inst = []
+    for n in range(rng.randint(2, 4)):
+        mk, needs_arg = rng.choice(makers)
+        nm = "c" + names[n]
+        s.append("%s = %s(%d)" % (nm, mk, rng.randint(0, 6)))
+        inst.append((nm, needs_arg))
+    s.append("for q <- fromto(0, 3) q")
+    for _ in range(rng.randint(2, 4)):
+        calls = []
+        for _ in range(rng.randint(2, 4)):
+            nm, needs_arg = rng.choice(inst)
+            calls.append("%s(%s)" % (nm, str(rng.randint(0, 4)) if needs_arg else ""))
+        shape = rng.random()
+        if shape < 0.5:
+            s.append("[" + ", ".join(calls) + "]")
+        elif shape < 0.75:
+            s.append("{\nfor q <- fromto(0, 2) q\n[" + ", ".join(calls) + "]\n}")
+        else:
+            s.append("toa(" + calls[0] + ") + \" \" + toa(" + calls[-1] + ")")
+    return s
